@@ -136,7 +136,10 @@ async def check_state(st, table, idx, sd, acc):
     # the two public steps separately
     base = parse_condition_expression_to_tree(expr)
     try:
-        only_p = await expand_packages(parse_condition_expression_to_tree(expr))
+        kept = parse_condition_expression_to_tree(expr)       # callers keep a parsed tree and expand it for every message: one level of substitution each time
+        await expand_packages(kept)
+        expand_time_conditions(kept)
+        only_p = await expand_packages(kept)
         pt, pn = spec_tree_numbered(o["pkgtree"])
         pkg_subst = []
         for t in ts:
